@@ -353,26 +353,28 @@ def shards(tier, seed):
     # windows beyond the number of statements a worker executes are redundant (non-canonical schedules)
     length = _sequential_length(dict(p))
     st = step if p['preemptions'] == 1 else 4
+    p = dict(p)
+    budget, expect = p.pop('budget', 60), p.pop('expect', 30)
     for lo in range(0, min(maxlen, length) + 1, st):
       params = dict(maxlen=min(maxlen, length), window=(lo, lo + st), **p)
       out.append(dict(name=f'{tag}:n0={lo}-{lo + st - 1}', fn='h_sched_w', params=params, args=_ARGS,
                       allow_vacuous=lo >= length - 25,      # tail windows can be empty (shorter action mixes)
-                      budget_s=60 if quick else 900, per_path_s=60))
+                      budget_s=budget if quick else 900, expect_s=expect, per_path_s=60))
   # 2 workers in distinct groups, one trial each, one preemption; all action mixes
   add('2w1t:K1:distinct:sweeping', workers=2, per_worker=1, preemptions=1, actions=ACTIONS, groups='distinct', algo='sweeping',
-      num_examples=None)
+      num_examples=None, budget=180, expect=90)
   # the budget boundary: 2 workers race for the last trial
   add('2w1t:K1:budget1:sweeping', workers=2, per_worker=1, preemptions=1, actions=['done'], groups='distinct', algo='sweeping',
       num_examples=1)
-  add('2w2t:K1:budget3:sweeping', workers=2, per_worker=2, preemptions=1, actions=['done', 'skip'], groups='distinct', algo='sweeping',
-      num_examples=3)
+  add('2w2t:K1:budget3:sweeping', workers=2, per_worker=2, preemptions=1, actions=['done', 'skip'] if not quick else ['done'],
+      groups='distinct', algo='sweeping', num_examples=3)
   # same-group workers share the pending trial
   add('2w1t:K1:same_group:sweeping', workers=2, per_worker=1, preemptions=1, actions=['done', 'skip', 'early_stop'], groups='same',
       algo='sweeping', num_examples=None)
   add('2w1t:K1:rewards:sweeping', workers=2, per_worker=1, preemptions=1, actions=['done'], groups='distinct', algo='sweeping',
       num_examples=None, sym_rewards=True)
   add('2w1t:K2:same_group:sweeping', workers=2, per_worker=1, preemptions=2, actions=['done'], groups='same', algo='sweeping',
-      num_examples=None, symmetric=True)
+      num_examples=None, symmetric=True, budget=150, expect=70)
   add('2w1t:K1:distinct:evolution', workers=2, per_worker=1, preemptions=1, actions=['done'], groups='distinct', algo='evolution',
       num_examples=None)
   if not quick:
